@@ -54,18 +54,19 @@ def lookupTable (t : List (Bytes × Bytes)) (k : Bytes) : Bytes :=
   | some p => p.2
   | none => List.replicate 32 0
 
+def bytesList (j : Option Json) : List Bytes :=
+  match j with
+  | some (.arr xs) => xs.filterMap Json.asBytes?
+  | _ => []
+
 def hashesOfJson (input : Json) : Hashes :=
   { keccak := lookupTable (tableOfJson (input.get? "keccak")),
-    cbHash := lookupTable (tableOfJson (input.get? "cbhash")) }
+    cbHash := lookupTable (tableOfJson (input.get? "cbhash")),
+    tooDeep := fun raw => (bytesList (input.get? "rlp_too_deep")).contains raw }
 
 def boolList (j : Option Json) : List Bool :=
   match j with
   | some (.arr xs) => xs.filterMap Json.asBool?
-  | _ => []
-
-def bytesList (j : Option Json) : List Bytes :=
-  match j with
-  | some (.arr xs) => xs.filterMap Json.asBytes?
   | _ => []
 
 def pinOfJson : Option Json → Option PinSt
@@ -426,6 +427,21 @@ def run (op : String) (input implOut : Json) : Option (Json × Bool) :=
   | "sigauth" => sigauth input implOut
   | "hexhash" => hexhash input implOut
   | "admin" => admin input implOut
+  | "line.C14" => line (fun i o =>
+      -- a transaction that cannot be decoded, or has an input with an empty script, is answered
+      -- -102 without contacting the device: no event of any kind (no APDU, no disconnect, no connect)
+      let bad : Bool := match i.get? "request" with
+        | some (.obj kvs) =>
+          (match Json.lookup kvs "message" with
+           | some (.obj m) =>
+             (match Json.lookup m "tx" with
+              | some (.str t) => (match Py.fromHex t with
+                  | some (b :: bs) => (Btc.getUnsignedTx (b :: bs)).isNone
+                  | _ => false)
+              | _ => false)
+           | _ => false)
+        | _ => false
+      !bad || (Spec.errorcode? o.reply == some (-102) && o.events.isEmpty && !o.shutdown)) input implOut
   | _ => none
 
 end Ops
